@@ -30,7 +30,7 @@
 #endif
 
 /* ------------------------------------------------------------------ configuration deviations */
-typedef struct { char name[48]; int n; int req[2]; int val[2]; int maxbytes; int ms_ok; } cdev;
+typedef struct { char name[64]; int n; int req[3]; int val[3]; int maxbytes; int ms_ok; } cdev;
 #define MAXDEV 128
 static cdev DEV[MAXDEV]; static int NDEV;
 static void dev1(const char *nm,int v,int req,int ms_ok){ cdev *d=&DEV[NDEV++]; memset(d,0,sizeof *d); snprintf(d->name,sizeof d->name,nm,v); d->n=1; d->req[0]=req; d->val[0]=v; d->ms_ok=ms_ok; }
@@ -121,10 +121,61 @@ static const char *first_diff(const unsigned char *a,const unsigned char *b,int 
    snprintf(s,sizeof s,"first difference at byte %d: %s vs %s",i,mc_hex(a+i,n-i<12?n-i:12),mc_hex(b+i,n-i<12?n-i:12)); return s;
 }
 
+
+/* ------------------------------------------------------------------ derived int16 signals for the depth grid (mode depth / msdepth)
+ * Everything in the encoder that reads lsb_depth decides on LOW-LEVEL content: is_digital_silence (peak <= 2^-lsb_depth), the
+ * analysis noise floor (5.7e-4 / 2^(lsb_depth-8)) that drives bandwidth detection, and CELT's dynalloc floor.  So each family
+ * is also generated attenuated by 20/40/60 dB, band-limited (8th-order Butterworth low-pass at 2/4/8 kHz, computed in double
+ * and rounded to int16, so the upper bands hold nothing but 16-bit rounding noise), and as near-silence patterns whose peak
+ * sits on the is_digital_silence thresholds of LSB depth 16/12/8 (1, 8|9, 128|129 LSB). */
+typedef struct { int fam; int att_db; int lp_hz; int special; char name[72]; } sigspec;
+typedef struct { siggen g; const sigspec *sp; int ch; double gain; double b0[4],b1[4],b2[4],a1[4],a2[4]; double z[8][4][2]; long n; uint32_t lcg; } xgen;
+static void xg_init(xgen *x,const sigspec *sp,int fs,int ch){
+   static const double Q[4]={0.50979558,0.60134489,0.89997622,2.56291545}; int k;
+   memset(x,0,sizeof *x); x->sp=sp; x->ch=ch; x->gain=pow(10.0,-sp->att_db/20.0); x->lcg=12345u+sp->special;
+   sig_init(&x->g,sp->fam,fs,ch,(uint32_t)(sp->fam+1));
+   if(sp->lp_hz>0&&sp->lp_hz*2<fs){ double w=2*M_PI*sp->lp_hz/fs,cs=cos(w),sn=sin(w);
+      for(k=0;k<4;k++){ double al=sn/(2*Q[k]),a0=1+al; x->b0[k]=(1-cs)/2/a0; x->b1[k]=(1-cs)/a0; x->b2[k]=(1-cs)/2/a0; x->a1[k]=-2*cs/a0; x->a2[k]=(1-al)/a0; } }
+}
+static void xg_gen(xgen *x,opus_int16 *out,int fsz){
+   const sigspec *sp=x->sp; int i,c,k,ch=x->ch;
+   if(sp->special){
+      for(i=0;i<fsz;i++){ long n=x->n++; int v=0;
+         switch(sp->special){
+         case 1: v=(n&1)?1:-1; break;                               /* +-1 LSB at Nyquist */
+         case 2: v=(n%100==50)?1:0; break;                          /* a lone 1-LSB tick */
+         case 3: x->lcg=x->lcg*1664525u+1013904223u; v=(int)((x->lcg>>24)%3)-1; break;   /* {-1,0,1} dither */
+         default: { int A=sp->special; v=((n/32)&1)?A:-A; } break;  /* square of amplitude A LSB (8,9,128,129) */
+         }
+         for(c=0;c<ch;c++) out[i*ch+c]=(opus_int16)((c&1)?-v:v); }
+      return;
+   }
+   sig_gen(&x->g,out,fsz);
+   if(sp->att_db==0&&sp->lp_hz==0) return;
+   for(i=0;i<fsz;i++) for(c=0;c<ch;c++){ double v=out[i*ch+c];
+      if(sp->lp_hz>0&&x->b0[0]!=0) for(k=0;k<4;k++){ double *z=x->z[c][k]; double y=x->b0[k]*v+z[0]; z[0]=x->b1[k]*v-x->a1[k]*y+z[1]; z[1]=x->b2[k]*v-x->a2[k]*y; v=y; }
+      out[i*ch+c]=(opus_int16)sig_clip16(v*x->gain); }
+}
+#define MAXSPEC 96
+static sigspec SPEC[MAXSPEC]; static int NSPEC;
+static void add_spec(int fam,int att,int lp,int special){ sigspec *q=&SPEC[NSPEC++]; q->fam=fam; q->att_db=att; q->lp_hz=lp; q->special=special;
+   if(special) snprintf(q->name,sizeof q->name,special==1?"near-silence +-1 LSB alternating":special==2?"near-silence lone 1-LSB ticks":special==3?"near-silence {-1,0,1} dither":"near-silence square +-%d LSB",special);
+   else if(lp) snprintf(q->name,sizeof q->name,"%s -%d dB low-pass %d Hz",sig_name[fam],att,lp);
+   else snprintf(q->name,sizeof q->name,"%s -%d dB",sig_name[fam],att); }
+static void mk_specs(int full){
+   static const int fams_full[8]={SIG_SQUARE,SIG_NOISE,SIG_MULTITONE,SIG_SWEEP,SIG_SPEECH,SIG_BANDNOISE,SIG_CLICKS,SIG_STEREOPAN};
+   static const int fams_q[5]={SIG_NOISE,SIG_MULTITONE,SIG_SWEEP,SIG_SPEECH,SIG_BANDNOISE};
+   static const int lps[3]={2000,4000,8000}, lpf[3]={SIG_NOISE,SIG_MULTITONE,SIG_SPEECH}, sp[7]={1,2,3,8,9,128,129};
+   int i,a,l; NSPEC=0;
+   for(i=0;i<(full?8:5);i++) for(a=(full?0:20);a<=60;a+=20) add_spec(full?fams_full[i]:fams_q[i],a,0,0);
+   for(i=0;i<3;i++) for(l=0;l<3;l++){ add_spec(lpf[i],20,lps[l],0); if(full) add_spec(lpf[i],40,lps[l],0); }
+   for(i=0;i<7;i++) add_spec(SIG_SILENCE,0,0,sp[i]);
+}
+
 /* one run: twin-triplet encoders, consecutive frames of one signal at one duration */
-static void run_seq(const basecfg *b,const cdev *d,int lsb,int sig,int di){
-   trip T; int k,f,ch=b->ch,fsz=b->fs/400*DUR[di],nfr=NFR[di]*frscale,maxb=d->maxbytes?d->maxbytes:(b->ms?6000:1500),j;
-   siggen g; opus_int16 *a; opus_int32 *x24; float *xf; unsigned char *p[3]; int n[3]; opus_uint32 rng[3];
+static void run_seq(const basecfg *b,const cdev *d,int lsb,int sig,int di,const sigspec *sp,int nfr_over){
+   trip T; int k,f,ch=b->ch,fsz=b->fs/400*DUR[di],nfr=nfr_over?nfr_over:NFR[di]*frscale,maxb=d->maxbytes?d->maxbytes:(b->ms?6000:1500),j;
+   siggen g; xgen xg; const char *sname=sp?sp->name:sig_name[sig]; opus_int16 *a; opus_int32 *x24; float *xf; unsigned char *p[3]; int n[3]; opus_uint32 rng[3];
    static const char *const fmt[3]={"int16","int24","float"};
    if(!t_create(&T,b)){ mc_fail(b->ms?"ms_encoder_create_failed":"encoder_create_failed","base %s",b->base); return; }
    for(j=0;j<d->n;j++){ int r0=t_ctl(&T,0,d->req[j],d->val[j]),r1=t_ctl(&T,1,d->req[j],d->val[j]),r2=t_ctl(&T,2,d->req[j],d->val[j]);
@@ -133,14 +184,14 @@ static void run_seq(const basecfg *b,const cdev *d,int lsb,int sig,int di){
    for(k=0;k<3;k++) if(t_ctl(&T,k,OPUS_SET_LSB_DEPTH_REQUEST,lsb)!=OPUS_OK){ mc_fail("set_lsb_depth_rejected","base %s lsb %d",b->base,lsb); t_destroy(&T); return; }
    a=malloc(sizeof(opus_int16)*fsz*ch); x24=malloc(sizeof(opus_int32)*fsz*ch); xf=malloc(sizeof(float)*fsz*ch);
    for(k=0;k<3;k++) p[k]=malloc(maxb);
-   sig_init(&g,sig,b->fs,ch,(uint32_t)(sig+1));
+   if(sp) xg_init(&xg,sp,b->fs,ch); else sig_init(&g,sig,b->fs,ch,(uint32_t)(sig+1));
    MC_INC(c_runs);
    for(f=0;f<nfr;f++){
       int bad=0; const char *pair=NULL,*what=NULL; int ka=0,kb=0,fa=0,fb=1;
-      sig_gen(&g,a,fsz);
+      if(sp) xg_gen(&xg,a,fsz); else sig_gen(&g,a,fsz);
       for(j=0;j<fsz*ch;j++){ x24[j]=(opus_int32)a[j]*256; xf[j]=(float)a[j]/32768.f; }
       for(k=0;k<3;k++) memset(p[k],0xA0+k,maxb);
-      mc_case(b->ms?"ms_encode_triplet":"encode_triplet","base %s dev %s lsb_depth %d signal %s duration %g ms frame %d (frame_size %d, max_data_bytes %d)",b->base,d->name,lsb,sig_name[sig],DUR[di]*2.5,f,fsz,maxb);
+      mc_case(b->ms?"ms_encode_triplet":"encode_triplet","base %s dev %s lsb_depth %d signal %s duration %g ms frame %d (frame_size %d, max_data_bytes %d)",b->base,d->name,lsb,sname,DUR[di]*2.5,f,fsz,maxb);
       if(!b->ms){
          n[0]=opus_encode((OpusEncoder*)T.e[0],a,fsz,p[0],maxb);
          n[1]=opus_encode24((OpusEncoder*)T.e[1],x24,fsz,p[1],maxb);
@@ -163,7 +214,7 @@ static void run_seq(const basecfg *b,const cdev *d,int lsb,int sig,int di){
          char sg[96]; int m; snprintf(sg,sizeof sg,"%s_packets_differ:%s:%s",b->ms?"ms_encode":"encode",pair,what);
          m=n[ka]<n[kb]?n[ka]:n[kb];
          mc_fail(sg,"base %s dev %s lsb_depth %d signal %s duration %g ms frame %d: returns int16=%d int24=%d float=%d, final ranges %08x %08x %08x; %s; %s packet head %s",
-                 b->base,d->name,lsb,sig_name[sig],DUR[di]*2.5,f,n[0],n[1],n[2],rng[0],rng[1],rng[2],m>0?first_diff(p[ka],p[kb],m):"",fmt[ka],n[ka]>0?mc_hex(p[ka],n[ka]<24?n[ka]:24):"-");
+                 b->base,d->name,lsb,sname,DUR[di]*2.5,f,n[0],n[1],n[2],rng[0],rng[1],rng[2],m>0?first_diff(p[ka],p[kb],m):"",fmt[ka],n[ka]>0?mc_hex(p[ka],n[ka]<24?n[ka]:24):"-");
          break;
       }
       if(n[0]<0){ MC_INC(c_errret); }
@@ -171,8 +222,8 @@ static void run_seq(const basecfg *b,const cdev *d,int lsb,int sig,int di){
          uint64_t h=mc_mix(mc_hash(p[0],n[0],n[0]),rng[0]); MC_ADD(c_bytes,n[0]);
          if(mc_set_add(S_pk,h)){ MC_INC(c_states);
             if(n[0]>2*(b->ms?8:1)){ MC_INC(c_dn);
-               if(mc_set_add(S_nt,mc_mix(mc_mix(b->ms*64+b->layout*8+(b->fs/8000),sig),(p[0][0]>>3)*16+di)))
-                  if(MC_INC(c_nsmp)<4) mc_sample("%s base %s dev %s lsb_depth %d signal %s duration %g ms frame %d: int16/int24/float packets byte-identical, len %d, final range %08x, head %s",b->ms?"multistream":"encoder",b->base,d->name,lsb,sig_name[sig],DUR[di]*2.5,f,n[0],rng[0],mc_hex(p[0],n[0]<12?n[0]:12)); }
+               if(mc_set_add(S_nt,mc_mix(mc_mix(b->ms*64+b->layout*8+(b->fs/8000),sp?100+(int)(sp-SPEC):sig),(p[0][0]>>3)*16+di)))
+                  if(MC_INC(c_nsmp)<3) mc_sample("%s base %s dev %s lsb_depth %d signal %s duration %g ms frame %d: int16/int24/float packets byte-identical, len %d, final range %08x, head %s",b->ms?"multistream":"encoder",b->base,d->name,lsb,sname,DUR[di]*2.5,f,n[0],rng[0],mc_hex(p[0],n[0]<12?n[0]:12)); }
             else MC_INC(c_tiny); }
       }
    }
@@ -184,13 +235,27 @@ static basecfg *BASES; static int NBASE; static int *ITEM_B,*ITEM_D; static long
 static void item_fn(long it,void *ctx){
    const basecfg *b=&BASES[ITEM_B[it]]; const cdev *d=&DEV[ITEM_D[it]]; int li,s,di; (void)ctx;
    for(li=0;li<(ITEM_D[it]==0&&lsb_full_default?9:nlsb);li++){ int lsb=(ITEM_D[it]==0&&lsb_full_default)?8+li:lsbs[li];
-      for(s=0;s<SIG_NFAM;s++) if(sigmask>>s&1) for(di=0;di<9;di++) if(durmask>>di&1) run_seq(b,d,lsb,s,di); }
+      for(s=0;s<SIG_NFAM;s++) if(sigmask>>s&1) for(di=0;di<9;di++) if(durmask>>di&1) run_seq(b,d,lsb,s,di,NULL,0); }
+}
+
+/* ---- depth grid: item = (base, bitrate per channel, complexity); inside: LSB depth x derived low-level signals x long runs */
+static const int DBR[5]={12000,16000,24000,32000,44000}, DCX[3]={5,7,10};
+static unsigned dbrmask=0x1f, dcxmask=7, ddurmask=0x08; static int dframes20=24;
+static int *DIT_B,*DIT_R,*DIT_C; static long NDIT;
+static void depth_item(long it,void *ctx){
+   const basecfg *b=&BASES[DIT_B[it]]; cdev d; int li,s,di; (void)ctx;
+   memset(&d,0,sizeof d); d.n=2; d.req[0]=OPUS_SET_BITRATE_REQUEST; d.val[0]=DBR[DIT_R[it]]*b->ch; d.req[1]=OPUS_SET_COMPLEXITY_REQUEST; d.val[1]=DCX[DIT_C[it]]; d.ms_ok=1;
+   snprintf(d.name,sizeof d.name,"bitrate=%d(%d/ch)+complexity=%d",d.val[0],DBR[DIT_R[it]],d.val[1]);
+   for(li=0;li<nlsb;li++) for(s=0;s<NSPEC;s++) for(di=0;di<9;di++) if(ddurmask>>di&1){
+      int nfr = di==3?dframes20 : (di<3? dframes20*4/3 : (dframes20*20/(DUR[di]*5/2)<8?8:dframes20*20/(DUR[di]*5/2)));
+      run_seq(b,&d,lsbs[li],0,di,&SPEC[s],nfr); }
 }
 
 int main(int argc,char **argv){
    const char *mode; int i,d; unsigned fsmask,appmask,laymask; const char *ls;
    mc_init(argc,argv,"C13","enc");
    mode=mc_arg_s("--mode","enc"); MC.part=mc_arg_s("--part",!strcmp(mode,"ms")?"msenc":"enc");
+   { int depth=!strcmp(mode,"depth")||!strcmp(mode,"msdepth"); if(depth){ dbrmask=(unsigned)mc_arg("--brs",0x1f); dcxmask=(unsigned)mc_arg("--cxs",7); ddurmask=(unsigned)mc_arg("--ddurs",0x08); dframes20=(int)mc_arg("--frames",24); mk_specs((int)mc_arg("--fullspecs",0)); } }
    sigmask=(unsigned)mc_arg("--sigs",0x1ff); durmask=(unsigned)mc_arg("--durs",0x1ff); frscale=(int)mc_arg("--frscale",1);
    fsmask=(unsigned)mc_arg("--fs",0x1f); appmask=(unsigned)mc_arg("--apps",7); laymask=(unsigned)mc_arg("--layouts",0x7f);
    lsb_full_default=(int)mc_arg("--lsbfull",0);
@@ -200,10 +265,18 @@ int main(int argc,char **argv){
    c_runs=mc_counter("runs"); c_nsmp=mc_counter("sample_candidates"); c_inappl=mc_counter("runs_setting_rejected_for_base"); c_errret=mc_counter("frames_all_three_return_same_error"); c_tiny=mc_counter("distinct_tiny_packets"); c_bytes=mc_counter("packet_bytes_compared");
    S_pk=mc_set_new(24); S_nt=mc_set_new(16);
    BASES=calloc(256,sizeof *BASES); NBASE=0;
-   if(strcmp(mode,"ms")){ int f,c,a;
+   if(strcmp(mode,"ms")&&strcmp(mode,"msdepth")){ int f,c,a;
       for(f=0;f<5;f++) if(fsmask>>f&1) for(c=1;c<=2;c++) for(a=0;a<3;a++) if(appmask>>a&1){ basecfg *b=&BASES[NBASE++]; b->ms=0; b->fs=FS[f]; b->ch=c; b->app=APP[a]; b->layout=0; snprintf(b->base,sizeof b->base,"{Fs %d, %d ch, %s}",FS[f],c,APPN[a]); }
    } else { int l,f,a;
       for(l=0;l<NLAY;l++) if(laymask>>l&1) for(f=0;f<5;f++) if(fsmask>>f&1) for(a=0;a<3;a++) if(appmask>>a&1){ basecfg *b=&BASES[NBASE++]; b->ms=1; b->fs=FS[f]; b->ch=LAY[l].ch; b->app=APP[a]; b->layout=l; snprintf(b->base,sizeof b->base,"{multistream %s, Fs %d, %s}",LAY[l].name,FS[f],APPN[a]); }
+   }
+   if(!strcmp(mode,"depth")||!strcmp(mode,"msdepth")){ int r,c;
+      DIT_B=malloc(sizeof(int)*NBASE*15); DIT_R=malloc(sizeof(int)*NBASE*15); DIT_C=malloc(sizeof(int)*NBASE*15); NDIT=0;
+      for(i=0;i<NBASE;i++) for(r=0;r<5;r++) if(dbrmask>>r&1) for(c=0;c<3;c++) if(dcxmask>>c&1){ DIT_B[NDIT]=i; DIT_R[NDIT]=r; DIT_C[NDIT]=c; NDIT++; }
+      mc_info("mode %s: %d bases x bitrate/ch mask %x x complexity mask %x -> %ld items; lsb depths %s; %d derived low-level signals (first: %s; last: %s); duration mask %x, %d frames per 20 ms run",mode,NBASE,dbrmask,dcxmask,NDIT,ls,NSPEC,SPEC[0].name,SPEC[NSPEC-1].name,ddurmask,dframes20);
+      mc_par(NDIT,depth_item,NULL);
+      mc_set_count(S_pk);
+      return mc_finish();
    }
    ITEM_B=malloc(sizeof(int)*NBASE*NDEV); ITEM_D=malloc(sizeof(int)*NBASE*NDEV); NITEM=0;
    for(i=0;i<NBASE;i++) for(d=0;d<NDEV;d++){ if(BASES[i].ms&&!DEV[d].ms_ok) continue; ITEM_B[NITEM]=i; ITEM_D[NITEM]=d; NITEM++; }
